@@ -53,7 +53,7 @@ CLAIMS = {
         "grids of any length. The words are compared exactly with the real analog_tjm_1/2 run with recording stubs (real "
         "has_scheduled_jump); the binary64 time-matching model is compared bit-exactly with has_scheduled_jump up to 10^6 steps. "
         "PARTIAL: the numerical action of the operator (application, two-site merge/split, renormalisation) is covered by the "
-        "dense 'apply once at t_k' search only. Extended: the time-matching tests of has_scheduled_jump/apply_scheduled_jumps are regenerated from the source and proved equal to the model and to each other; local-operator theorem for the action of a one-site jump.",
+        "dense 'apply once at t_k' search only. Extended: the time-matching tests of has_scheduled_jump/apply_scheduled_jumps are regenerated from the source and proved equal to the model and to each other; local-operator theorem for the action of a one-site jump. Scheduled jumps with the user's own matrix under own and library names.",
         COMMON_NOTE + "Assumes the state is determined by the word of kernel calls.",
         "DESIGN.md §3 C14"),
     "C15": (
@@ -88,7 +88,7 @@ CLAIMS = {
         "_run_weak_sim on enumerated and random histories, serial and parallel (deterministic executor). The search runs real "
         "simulations: reused vs fresh noise-free results, deep equality of circuit/Hamiltonian/noise model before and after, one "
         "OS-seeded Generator per trajectory with distinct states. PARTIAL: statistical independence of separately OS-seeded "
-        "generators (also across forked workers) is a property of NumPy/the OS and is not modelled. Extended: layer-sampling histories (columns depend on the circuit of the run only). Real pools of four workers: no trajectory repeats another of the same or previous run; generator-per-trajectory is a correspondence, not a demand.",
+        "generators (also across forked workers) is a property of NumPy/the OS and is not modelled. Extended: layer-sampling histories (columns depend on the circuit of the run only). Real pools of four workers: no trajectory repeats another of the same or previous run; generator-per-trajectory is a correspondence, not a demand. One AnalogSimParams object served by TJM, MCWF and Lindblad in any order (run_analog model + trace).",
         COMMON_NOTE,
         "DESIGN.md §3 C20"),
     "C18": (
@@ -99,7 +99,7 @@ CLAIMS = {
         "forms are proved to be one-parameter groups through the identity. Angle expressions are normalised by field_simplify so that "
         "algebraically equal rewrites of the source keep the proofs valid. PARTIAL: closed form = analytic matrix exponential is cited "
         "(group law proved); tensor orientation (set_sites transposes), extend_gate/split_tensor (SVD split, identity padding, reversal) "
-        "are checked numerically for both orientations and separations 1..4 by the search, not mechanised. Extended: padded_gate_mpo theorem (identity pass-through padding; flipped chain for descending sites) and structural tie of the real mpo_tensors; fine Trotter angles.",
+        "are checked numerically for both orientations and separations 1..4 by the search, not mechanised. Extended: padded_gate_mpo theorem (identity pass-through padding; flipped chain for descending sites) and structural tie of the real mpo_tensors; fine Trotter angles. Histories on one gate object (re-sited in both orientations).",
         COMMON_NOTE + "Axioms: the three standard-library real-number axioms (sig_forall_dec, sig_not_dec, functional_extensionality_dep). "
         "The translator is trusted to render the supported expression grammar; it fails closed on anything else.",
         "DESIGN.md §3 C18"),
@@ -124,7 +124,7 @@ CLAIMS = {
         "centre of the state being read is, from the isometry of the real tensors). PARTIAL: that a centred local contraction equals "
         "the dense expectation value (isometry of the environments) is not mechanised here; the search compares every observable kind "
         "of the library on random entangled normalised states, plus norm, overlap and bitstring probability, and shuffled lists "
-        "through simulator.run, with the dense vector. Extended: centred_expectation_is_dense (left-isometric prefix, right-isometric suffix => sum over all basis strings = centre contraction; any ring, length, dimensions), merged two-site tensors; MPS.expect tied to that contraction on the real tensors; front-end attribution trace (serial/parallel); entangling two-site observables.",
+        "through simulator.run, with the dense vector. Extended: centred_expectation_is_dense (left-isometric prefix, right-isometric suffix => sum over all basis strings = centre contraction; any ring, length, dimensions), merged two-site tensors; MPS.expect tied to that contraction on the real tensors; front-end attribution trace (serial/parallel); entangling two-site observables. User-defined operators sharing the gate name 'custom' on the same site(s).",
         COMMON_NOTE,
         "DESIGN.md §3 C11"),
     "C01": (
@@ -196,7 +196,7 @@ CLAIMS = {
         "right-isometric sites right of c from any prior knowledge and that the canonical-form query lists c. Ties: the isometry the "
         "model derives after random sequences of shift/set/normalize/flip (QR and SVD) must be measured on the real tensors and its "
         "centres reported by the real check_canonical_form; the independently contracted vector must be unchanged by every operation. "
-        "PARTIAL: LAPACK returning a valid factorisation (SVD mode: within 1e-12), flip_network and zero padding are tied numerically. Extended: flip_network and zero padding are now theorems (flip_preserves_amplitudes, zero_padding_preserves); operation sequences on MPS with aliased tensors and rescaled gauges.",
+        "PARTIAL: LAPACK returning a valid factorisation (SVD mode: within 1e-12), flip_network and zero padding are tied numerically. Extended: flip_network and zero padding are now theorems (flip_preserves_amplitudes, zero_padding_preserves); operation sequences on MPS with aliased tensors and rescaled gauges. Broken networks are outcomes of the operation sequence, not harness crashes.",
         COMMON_NOTE,
         "DESIGN.md §3 C10"),
     "C12": (
@@ -209,7 +209,7 @@ CLAIMS = {
         "branches of measure_single_shot is forced (scripted choice) for random entangled states in the Z, X and Y bases and the product "
         "of the vectors handed to choice is compared with the dense Born probability; keys vs the model. Search: in-place measure() "
         "(probability and projected state, both outcomes) and weak simulations (counts, key range, no zero-probability outcome). "
-        "PARTIAL: basis rotation and numpy's choice are modelled, not verified. Extended: rotated-basis theorem (a local basis rotation keeps the site right-isometric); borderline noise strengths and run histories in the weak-run oracle.",
+        "PARTIAL: basis rotation and numpy's choice are modelled, not verified. Extended: rotated-basis theorem (a local basis rotation keeps the site right-isometric); borderline noise strengths and run histories in the weak-run oracle. Registers of 64 and more sites (encodeZ, wide forced strings, 66-qubit weak run).",
         COMMON_NOTE,
         "DESIGN.md §3 C12"),
     "C05": (
